@@ -52,7 +52,7 @@ func subjects() []subject {
 	}
 }
 
-var opNames = []string{"Unserialize", "Unserialize2", "Validate", "Serialize", "ValidateCompatibility", "ValidateCompatibilitySchema", "SelfSerialize"}
+var opNames = []string{"Unserialize", "Unserialize2", "UnserializeRejected", "Validate", "Serialize", "ValidateCompatibility", "ValidateCompatibilitySchema", "SelfSerialize"}
 
 type scen struct {
 	Subject int
@@ -95,6 +95,7 @@ var stepScs map[string]stepkit.Scen
 // inputs of a subject: two raw values (the second one a unit string where applicable) and a native value
 type inputs struct {
 	raw1, raw2 any
+	bad        any // a raw value the schema rejects (for unit-bearing subjects: a string its units cannot parse)
 	native     any
 	ok         bool
 }
@@ -117,6 +118,25 @@ func inputsOf(sub subject) inputs {
 		}
 	}
 	sch := ukit.BuildScope(sub.Spec)
+	in.bad = "not a map"
+	if sub.Units {
+		switch {
+		case strings.Contains(sub.Name, "float"):
+			in.bad = map[string]any{"v": []any{"5 parsecs"}}
+		default:
+			in.bad = map[string]any{"v": "5 parsecs"}
+		}
+	} else {
+		for _, r := range ukit.RawValues(sub.Spec) {
+			if _, isMap := r.(map[string]any); !isMap {
+				continue
+			}
+			if pan, _, _ := ukit.Call(func() { _, err := sch.Unserialize(ukit.DeepCopy(r)); if err == nil { panic("accepted") } }); !pan {
+				in.bad = r
+				break
+			}
+		}
+	}
 	n, err := sch.Unserialize(ukit.DeepCopy(in.raw1))
 	if err != nil {
 		return in
@@ -149,6 +169,8 @@ func doOp(sch *schema.ScopeSchema, op string, in inputs, sub subject) string {
 		v, err = sch.Unserialize(ukit.DeepCopy(in.raw1))
 	case "Unserialize2":
 		v, err = sch.Unserialize(ukit.DeepCopy(in.raw2))
+	case "UnserializeRejected":
+		v, err = sch.Unserialize(ukit.DeepCopy(in.bad))
 	case "Validate":
 		err = sch.Validate(in.native)
 	case "Serialize":
@@ -413,7 +435,7 @@ func main() {
 			return judge(scs[sc.Name], r)
 		},
 		Pre:  pre,
-		Rule: "stateless depth-first search over thread schedules of the real schema code under a cooperative scheduler (sync shim; access events on every lazily written field, package variable and map object): 11 subjects (units, defaults, struct-mapped sub-objects, references, one-ofs) x {freshly built, freshly rebuilt from the description} x every unordered pair of {Unserialize, Unserialize of a second value, Validate, Serialize, ValidateCompatibility with data, ValidateCompatibility with a schema, SelfSerialize} (thorough: plus triples), all schedules within the bound; plus step calls on one callable schema: CallStep / CallSignal for run ids r1, r2 from 2-4 threads (thorough 5), first use of a run id raced between step and signal; every execution: vector-clock race scan, result of every call equal to the call in isolation, initializer once per run id, signal handler sees its run's step data; package-level unit definitions: first use raced in a fresh process per trial",
+		Rule: "stateless depth-first search over thread schedules of the real schema code under a cooperative scheduler (sync shim; access events on every lazily written field, package variable and map object): 11 subjects (units, defaults, struct-mapped sub-objects, references, one-ofs) x {freshly built, freshly rebuilt from the description} x every unordered pair of {Unserialize, Unserialize of a second value, Unserialize of a value the schema rejects (an unparsable unit string where there are units), Validate, Serialize, ValidateCompatibility with data, ValidateCompatibility with a schema, SelfSerialize} (thorough: plus triples), all schedules within the bound; plus step calls on one callable schema: CallStep / CallSignal for run ids r1, r2 from 2-4 threads (thorough 5), first use of a run id raced between step and signal; every execution: vector-clock race scan, result of every call equal to the call in isolation, initializer once per run id, signal handler sees its run's step data; package-level unit definitions: first use raced in a fresh process per trial",
 		Budget: func(tier string) time.Duration {
 			if tier == "thorough" {
 				return 20 * time.Minute
